@@ -141,6 +141,9 @@ def main():
     shutil.rmtree(ev_backup, ignore_errors=True)
     os.makedirs("/tmp/wtc", exist_ok=True)
     shutil.copytree("/verif/evidence", ev_backup)
+    import fcntl
+    lockf = open("/tmp/wtc/repo.lock", "w")
+    fcntl.flock(lockf, fcntl.LOCK_EX)  # /repo is patched from here on: one evaluation (or other user of /repo) at a time
     try:
         rc, out = sh(f"git apply {patch}", cwd="/repo")
         if rc != 0:
@@ -159,6 +162,7 @@ def main():
         shutil.rmtree("/verif/evidence", ignore_errors=True)
         shutil.copytree(ev_backup, "/verif/evidence")
         shutil.rmtree(ev_backup, ignore_errors=True)
+        fcntl.flock(lockf, fcntl.LOCK_UN)
     result["detected"] = detected
     result["caught"] = any(v["exit"] == 1 for v in detected.values())
     dst = os.path.join("/verif/seeded", a.name)
